@@ -1,7 +1,8 @@
 /-
   C18 — Exactly the requested closure is considered.
 -/
-import N2V.Lemmas.SchedWant
+import N2V.Lemmas.SchedClosure
+import N2V.Lemmas.SchedExamples
 import N2V.Model.Run
 namespace N2V.C18
 open N2V N2V.Sched
@@ -31,5 +32,38 @@ theorem manifest_target_skipped (g : Graph) (a : Run.Args) (s : S) (n : Bytes) (
 theorem want_only_adds (g : Graph) (s s' : S) (f : Nat) (h : want g s f = .ok () s') (b : Nat) (x : St)
     (hx : late x) : (s'.st b = x ↔ s.st b = x) :=
   (want_lateEq' g s s' f h).1 b x hx
+
+/-! ### Whole invocations -/
+
+/-- **No step outside the requested closure is ever considered, let alone run**: in any
+    `run::build` — any graph, arguments, environment behaviour, outcome — a build leaves
+    `Unknown` only if a requested file needs it: the manifest, a command-line name that resolves,
+    else a `default` target, else any file (`Run.Requested`), through explicit, implicit,
+    order-only or validation inputs (`Needs`).  (`Work::run` itself never draws anything in:
+    `runLoop_keeps`.) -/
+theorem only_requested_closure {E : Type} {g : Graph} (gok : GraphOK g) (a : Run.Args) (c : Choices E) (e : E)
+    (b : Nat) (hb : (Run.build g a c e).1.st b ≠ .unknown) :
+    ∃ f, Run.Requested g a f ∧ Needs g f b :=
+  Run.build_only_requested gok a c e b hb
+
+/-- In particular a command is started only for such a build (a `start` event is preceded by the
+    build's `set .. Running`, so its state is not `Unknown`). -/
+theorem started_only_if_requested {E : Type} {g : Graph} (gok : GraphOK g) (a : Run.Args) (c : Choices E) (e : E)
+    (b : Nat) (hs : stOf (Run.build g a c e).1.trace b ≠ .unknown) :
+    ∃ f, Run.Requested g a f ∧ Needs g f b := by
+  apply Run.build_only_requested gok a c e b
+  rw [← (Run.build_tinv gok a c e).st]; exact hs
+
+/-- What one `want_file` may mark. -/
+theorem want_marks_only_needed (g : Graph) (s s' : S) (f : Nat) (h : want g s f = .ok () s') (b : Nat)
+    (hb : s'.st b ≠ .unknown) : s.st b ≠ .unknown ∨ Needs g f b := by
+  have := want_touch g s f
+  rw [h] at this
+  exact this b hb
+
+/-- Non-vacuity: in the example, the step producing `c` needs the step producing `b`. -/
+example : Needs Ex.g0 2 0 :=
+  .step (b := 1) (f' := 1) (.direct (show Ex.g0.producer 2 = some 1 by decide)) (by decide)
+    (.direct (show Ex.g0.producer 1 = some 0 by decide))
 
 end N2V.C18
